@@ -476,6 +476,15 @@ def c07_case(rng, idx, params):
         gap = rng.choice([2, 3, 5]) * 120
         stream = stream[:-chunk] + [((c[0] + gap),) + tuple(c[1:]) for c in stream[-chunk:]]
         scn = {"spec": spec, "stream": stream, "lengths": lengths, "chunk": chunk, "with_manager": True}
+    elif rng.random() < 0.2 and spec["kind"] != "AMORPH":
+        # a lifespan whose window is full at both history lengths (every append pops as many candles as it adds: list positions shift
+        # under the indicator), or a collapsing timeframe above the one-minute feed (an append merges into the still-forming bucket and
+        # the same index is computed again): neither may cost more on a longer history
+        if rng.random() < 0.5:
+            spec = dict(spec, life=(min(lengths) // 2) * 60)
+        else:
+            spec = dict(spec, tf=rng.choice(["T3", "T5"]))
+        scn = {"spec": spec, "stream": stream, "lengths": lengths, "chunk": chunk, "with_manager": True}
     if chunk == 1:
         scn["form"] = rng.choice(["list", "bare", "bare", "dict", "flat"])   # every way of handing over ONE candle costs the same
     if rng.random() < 0.1:
